@@ -1,4 +1,5 @@
 import Crv.Proofs.ReaderRoundTrip
+import Crv.Proofs.Skeleton
 import Crv.Props.C06Pem
 import Crv.Props.C06Chunk
 /-!
@@ -134,5 +135,20 @@ example : (readCRL exOracle (enc exDoc)).events =
     [.start (seqOf [49, 0]) [50, 52] (some [50, 53]), .insert (seqOf [2, 1, 5, 23, 0]), .insert (seqOf [2, 1, 6, 23, 0]),
      .extMeta (some 7)] :=
   (read_enc exOracle exDoc _ _ _ _ exDoc_wf).1
+
+/-- The hand-written `Reader` model this property rests on was transcribed from exactly these sources: the fingerprints are
+recomputed from /repo on every run (tools/extract/skeleton.go), so any change to one of the functions breaks this obligation. -/
+theorem reader_sources_as_transcribed : Crv.Generated.skeletonReader = Crv.Skeleton.expectedReader :=
+  Crv.Skeleton.reader_sources_as_transcribed
+
+/-- The hand-written `Pem` model this property rests on was transcribed from exactly these sources: the fingerprints are
+recomputed from /repo on every run (tools/extract/skeleton.go), so any change to one of the functions breaks this obligation. -/
+theorem pem_sources_as_transcribed : Crv.Generated.skeletonPem = Crv.Skeleton.expectedPem :=
+  Crv.Skeleton.pem_sources_as_transcribed
+
+/-- The hand-written `Chunk` model this property rests on was transcribed from exactly these sources: the fingerprints are
+recomputed from /repo on every run (tools/extract/skeleton.go), so any change to one of the functions breaks this obligation. -/
+theorem chunk_sources_as_transcribed : Crv.Generated.skeletonChunk = Crv.Skeleton.expectedChunk :=
+  Crv.Skeleton.chunk_sources_as_transcribed
 
 end Crv.Props.C06
